@@ -916,7 +916,7 @@ class Thread:
         s = SCHED()
         if not s.aborting:
             s.yield_("alive", self)
-        return self._started and not self._finished
+        return bool(self._started) and not self._finished
 
     isAlive = is_alive
 
